@@ -881,3 +881,173 @@ def check_tables_and_dispatch(chk, ix):
         else:
             _fail(chk, "U4", mk, "protocol given=%s -> %s" % (given, used), "make_tag_expression with%s protocol argument parses through %s; expected %s" % (
                 "" if given else "out", used, w))
+
+
+# ----------------------------------------------------------------------
+# generated universes: expression trees and their renderings (quick: a sample, thorough: all)
+# ----------------------------------------------------------------------
+def _trees(depth, atoms=("a", "b", "c.*")):
+    """v2 expression trees: ('lit', name) | ('not', t) | ('and', t, u) | ('or', t, u)"""
+    if depth == 0:
+        return [("lit", x) for x in atoms]
+    sub = _trees(depth - 1, atoms)
+    small = _trees(0, atoms)
+    out = list(sub)
+    out += [("not", t) for t in sub]
+    out += [(op, t, u) for op in ("and", "or") for t in sub for u in small] + [(op, u, t) for op in ("and", "or") for t in sub if t[0] != "lit" for u in small]
+    seen, uniq = set(), []
+    for t in out:
+        if t not in seen:
+            seen.add(t)
+            uniq.append(t)
+    return uniq
+
+
+def _render(t, style):
+    """style: (at, parens, spaces)"""
+    at, parens, spaces = style
+    if t[0] == "lit":
+        r = ("@" if at else "") + t[1]
+        return "(%s)" % r if parens == "all" else r
+    if t[0] == "not":
+        inner = _render(t[1], style)
+        if t[1][0] != "lit" or parens == "all":
+            inner = "(" + inner + ")" if not inner.startswith("(") or not _balanced_outer(inner) else inner
+        return "not" + (" " if not inner.startswith("(") or spaces else "") + inner if False else "not " + inner
+    a, b = _render(t[1], style), _render(t[2], style)
+    if t[1][0] in ("and", "or") and t[1][0] != t[0] or parens == "all":
+        a = a if (a.startswith("(") and _balanced_outer(a)) else "(" + a + ")"
+    if t[2][0] in ("and", "or") or parens == "all":
+        b = b if (b.startswith("(") and _balanced_outer(b)) else "(" + b + ")"
+    sep = "  " if spaces else " "
+    return a + sep + t[0] + sep + b
+
+
+def _balanced_outer(text):
+    depth = 0
+    for i, ch in enumerate(text):
+        if ch == "(":
+            depth += 1
+        elif ch == ")":
+            depth -= 1
+            if depth == 0 and i != len(text) - 1:
+                return False
+    return text.startswith("(") and text.endswith(")")
+
+
+def _tree_table(t, names):
+    import itertools as _it
+
+    def ev(t_, env):
+        if t_[0] == "lit":
+            return env[t_[1]]
+        if t_[0] == "not":
+            return not ev(t_[1], env)
+        if t_[0] == "and":
+            return ev(t_[1], env) and ev(t_[2], env)
+        return ev(t_[1], env) or ev(t_[2], env)
+    return tuple(ev(t, dict(zip(names, bits))) for bits in _it.product((False, True), repeat=len(names)))
+
+
+def _names(t):
+    if t[0] == "lit":
+        return {t[1]}
+    return set().union(*[_names(x) for x in t[1:]])
+
+
+def check_v2_renderings(chk, ix, tier="quick"):
+    """T4/U2 over generated renderings: every expression tree up to depth 2 (quick: every 7th) over the operands a, b, c.*
+    in 6 rendering styles is (a) sent to the v2 parser by auto-detection when it contains an operator, parenthesis or
+    wildcard, and (b) normalised by the v2 builder into a text whose reading (reference reader) has the tree's truth table."""
+    chk.rule("T4", WHAT["T4"])
+    sel = ix.func("behave.tag_expression.builder:_select_tag_expression_parser4auto")
+    f = ix.func("behave.tag_expression.builder:_parse_tag_expression_v2")
+    import glob as _glob
+    trees = _trees(2)
+    if tier != "thorough":
+        trees = trees[::7]
+    else:
+        trees = trees + [t for t in _trees(3) if t not in set(trees)][::5]
+    styles = [(True, "min", False), (False, "min", False), (True, "all", False), (True, "min", True), (False, "all", True), (True, "all", True)]
+    n = 0
+    for t in trees:
+        names = sorted(_names(t))
+        want_table = _tree_table(t, names)
+        for style in styles:
+            text = _render(t, style)
+            n += 1
+            got = []
+            it = Interp(ix, stubs={"TagExpressionParser.parse": lambda i, s_, a, k, n_: (got.append(a[-1]), [(s_, "val", "EXPR")])[1],
+                                   "glob.has_magic": lambda i, s_, a, k, n_: [(s_, "val", _glob.has_magic(a[0]))]}, name="v2 renderings")
+            it.int_sat = 1000
+            it.list_cap = 100
+            it.fold_regex = True
+            it.eager_generators = True
+            st = State()
+            st.frames = []
+            outs = it.call_function(st, f, [text], {}, None)
+            chk.instance("T4")
+            if len(outs) != 1 or len(got) != 1 or not isinstance(got[0], str):
+                raise AnalysisError("_parse_tag_expression_v2 not foldable on %r" % text)
+            try:
+                rnames, rtable = _v2_table(got[0])
+                same = rnames == names and rtable == want_table
+            except ValueError:
+                same = False
+            if same and "@" not in got[0]:
+                chk.ok("T4", {"rendering": text, "handed_to_parser": got[0]}, nontrivial_key=("gen", text))
+            else:
+                _fail(chk, "T4", f, "%r -> %r" % (text, got[0]), "the expression %r reaches the v2 parser as %r, which does not denote the same formula" % (text, got[0]))
+            # auto-detection
+            if t[0] != "lit" or style[1] == "all" or _glob.has_magic(t[1]):
+                st = State()
+                st.frames = []
+                outs = it.call_function(st, sel, [text], {}, None)
+                chk.instance("T4")
+                ok_ = len(outs) == 1 and outs[0][1] == "val" and getattr(getattr(outs[0][2], "func", None), "name", "") == "_parse_tag_expression_v2"
+                if ok_:
+                    chk.ok("T4", {"rendering": text, "auto_detected": "v2"}, nontrivial_key=("auto", text))
+                else:
+                    _fail(chk, "T4", sel, "%r auto-detected as %r" % (text, [(k, v) for _, k, v in outs][:1]),
+                          "the pure new-style expression %r is not sent to the v2 parser by auto-detection: %r" % (text, [(k, v) for _, k, v in outs][:1]))
+            chk.absorb(it)
+    return n
+
+
+def check_v1_renderings(chk, ix, tier="quick"):
+    """U2 over generated old-style renderings: CNF formulas over tag names that CONTAIN the new-style keywords as
+    substrings (order, android, not_this) in every decoration style, as one space-separated string: auto-detection
+    chooses the v1 reading (a single plain word may go either way) and never raises."""
+    import glob as _glob
+    chk.rule("U2", WHAT["U2"])
+    sel = ix.func("behave.tag_expression.builder:_select_tag_expression_parser4auto")
+    names = ["order", "android", "not_this", "a.b-c=d"]
+    lits = [(neg, nm) for nm in names for neg in (False, True)]
+    groups = [(l,) for l in lits] + [(l, m) for l in lits for m in lits if l[1] < m[1]]
+    formulas = [(g,) for g in groups] + [(g, h) for g in groups[:8] for h in groups[8:20]]
+    if tier != "thorough":
+        formulas = formulas[::3]
+    styles = {"plain": ("-", ""), "at": ("-@", "@"), "tilde": ("~", ""), "tilde-at": ("~@", "@")}
+    it = Interp(ix, stubs={"glob.has_magic": lambda i, s_, a, k, n_: [(s_, "val", _glob.has_magic(a[0]))]}, name="v1 renderings")
+    it.int_sat = 1000
+    it.list_cap = 100
+    it.fold_regex = True
+    it.eager_generators = True
+    for formula in formulas:
+        for sname, (neg_p, pos_p) in sorted(styles.items()):
+            text = " ".join(",".join((neg_p if neg else pos_p) + nm for (neg, nm) in g) for g in formula)
+            plain_single = len(formula) == 1 and len(formula[0]) == 1 and not formula[0][0][0]
+            st = State()
+            st.frames = []
+            outs = it.call_function(st, sel, [text], {}, None)
+            chk.instance("U2")
+            if len(outs) != 1:
+                raise AnalysisError("auto-detect not foldable on %r" % text)
+            _, k, v = outs[0]
+            got = getattr(getattr(v, "func", None), "name", repr(v)) if k == "val" else "raises %r" % (v,)
+            if got == "_parse_tag_expression_v1" or (plain_single and got == "_parse_tag_expression_v2"):
+                chk.ok("U2", {"old-style text": text, "dialect": got}, nontrivial_key=("v1gen", text))
+            else:
+                _fail(chk, "U2", sel, "%r -> %s" % (text, got), "the pure old-style expression %r is not read with the old dialect by auto-detection: %s "
+                      "(tag names that merely contain and/or/not must not count as operators)" % (text, got))
+    chk.absorb(it)
